@@ -25,7 +25,7 @@ unblocking sites); the invariant over all reachable states is not attempted here
   `buffer_tryMove_notifies`.
 * (g) `attempt_before_clock_advances`, `step_runs_attempt`: a queued attempt at `now` is popped (and
   run as `passPart u`) before the clock moves.
-* `fuel_finding`: the fuel of the model's `notify` is too small for long chains of gates.
+* `fuel_sufficient`: the fuel of the model's `notify` (`2 * devs.length + 3`) suffices for long chains of gates.
 
 Definitions used in the statements (all in `SimProc/Proofs/C03Lemmas.lean`):
 `IsAttempt u t a e` — `e` is a live PASS_PART event of device `u` at time `t` for asset `a`;
@@ -204,13 +204,13 @@ theorem notify_wakes_direct (n : Nat) (w : World) (x u : Nat) (hx : forwardsUp w
   notify_wakes_reach (n + 2) w x u
     ((Reach.up hx hmem (Reach.self (n := 0) hhl)).le (by omega)) hu hns hop hfl hnow
 
-/-- **(c) for the entry point** `notify` (fuel `devs.length + 3 ≥ 2`). -/
+/-- **(c) for the entry point** `notify` (fuel `2 * devs.length + 3 ≥ 2`). -/
 theorem notify_wakes_direct' (w : World) (x u : Nat) (hx : forwardsUp w x = true)
     (hmem : u ∈ (w.dev x).up) (hu : u < w.devs.length)
     (hhl : isHandlerLike (w.dev u).kind = true) (hns : (w.dev u).kind ≠ .sink)
     (hop : w.operational u = true) (hfl : (w.dev u).waitingDS = true) (hnow : 0 ≤ w.now) :
     WokenFrom w (w.notify x) u :=
-  notify_wakes_direct (w.devs.length + 1) w x u hx hmem hu hhl hns hop hfl hnow
+  notify_wakes_direct (2 * w.devs.length + 1) w x u hx hmem hu hhl hns hop hfl hnow
 
 /-- **(d), one gate**: `u` is an upstream neighbour of a gate `g` which is an upstream neighbour of
 `x`. -/
@@ -233,10 +233,12 @@ theorem notify_wakes_through_gates (n k : Nat) (w : World) (x u : Nat)
     WokenFrom w (notifyUp n w x) u :=
   notify_wakes_reach n w x u ((hchain.reach hx).le hfuel) hu hns hop hfl hnow
 
-/-- **(d) for the entry point** `notify`, whose fuel is `devs.length + 3`: chains of at most
-`(devs.length + 1) / 2` gates.  (For longer chains see `fuel_finding` below.) -/
+/-- **(d) for the entry point** `notify`, whose fuel is `2 * devs.length + 3`: every chain of at most
+`devs.length` gates — i.e. every chain of distinct gates, whatever its length (see `fuel_sufficient`
+below; an earlier version of the model used `devs.length + 3`, which was too small for chains of
+four or more gates — found by this proof and repaired in `World.fuel`). -/
 theorem notify_wakes_through_gates' (k : Nat) (w : World) (x u : Nat)
-    (hchain : ReachesUp w k x u) (hfuel : 2 * k ≤ w.devs.length + 1)
+    (hchain : ReachesUp w k x u) (hfuel : k ≤ w.devs.length)
     (hx : forwardsUp w x = true) (hu : u < w.devs.length) (hns : (w.dev u).kind ≠ .sink)
     (hop : w.operational u = true) (hfl : (w.dev u).waitingDS = true) (hnow : 0 ≤ w.now) :
     WokenFrom w (w.notify x) u :=
@@ -892,15 +894,15 @@ example :
     (exGroup.notify 5).env.events.map (fun e => (e.act, e.time, e.prio, e.asset, e.cancelled))
       = [(3 + 16 * 3, 0, 28, 4, false)] ∧ (exGroup.notify 5).error = none := by decide
 
-/-- **Finding (fuel of the model).** The entry point `notify` runs the dispatch with fuel
-`devs.length + 3`, but every gate costs TWO units (`spaceAvail` then `notifyUp`).  In the
-six-device world `exChain` (fuel 9 < 10) the notification of the sink does not reach the flagged
-source: the model reports the explicit error `"fuel"`, the source stays flagged and no event is
-queued.  The hypothesis `2 * k ≤ devs.length + 1` of `notify_wakes_through_gates'` is sharp. -/
-theorem fuel_finding :
-    (exChain.notify 5).error = some "fuel" ∧ ((exChain.notify 5).dev 0).waitingDS = true ∧
-    (exChain.notify 5).env.events = [] ∧
-    ((notifyUp 10 exChain 5).error = none ∧ (notifyUp 10 exChain 5).env.events.length = 1) := by
+/-- **The fuel of the model suffices for long gate chains.**  Every gate costs two units of fuel
+(`spaceAvail` then `notifyUp`); with `World.fuel = 2 * devs.length + 3` the notification of the sink
+of the six-device world `exChain` (source → 4 gates → sink) reaches the flagged source: no error,
+flag cleared, one attempt queued.  (With the earlier fuel `devs.length + 3 = 9 < 10` it did not —
+the model then reported the explicit error `"fuel"`.) -/
+theorem fuel_sufficient :
+    (exChain.notify 5).error = none ∧ ((exChain.notify 5).dev 0).waitingDS = false ∧
+    (exChain.notify 5).env.events.length = 1 ∧
+    ((notifyUp 9 exChain 5).error = some "fuel") := by
   decide
 
 end C03
